@@ -11,8 +11,8 @@ Oracle: vp.synth.ref_raw over two concatenated iterations + ref_lcd.
 from osaca.frontend import Frontend
 from osaca.parser.flag import FlagOperand
 
-from vp.api import verdict, skip, shard
-from vp.symx import canon
+from vp.api import verdict, skip, shard, in_shard_index
+from vp.symx import canon, native, pattern_index
 from vp.synth import DG, NativeParser, PX, PA, iform, class_reg, ref_raw, ref_lcd, mk_model
 
 
@@ -62,19 +62,16 @@ def _summary_ok(isa, kernel, g, ref):
     return d["Summary"]["LCD"] == want
 
 
-def _struct(isa, n, reads, writes, narrow_reads, summary=True):
-    """reads[i] = list of slots, writes[i] = slot; slots symbolic ints."""
-    flat = []
-    for i in range(n):
-        flat += list(reads[i]) + [writes[i]]
-    pat = canon(flat)
+def _struct_concrete(isa, nreads, pat, narrow_reads, summary):
+    """Everything is concrete here (pattern decided by the solver): one native run of the real code."""
+    n = len(nreads)
     k = 0
     kernel, instrs = [], []
     weights = [1 << i for i in range(n)]
     for i in range(n):
-        rc = pat[k:k + len(reads[i])]
-        wc = pat[k + len(reads[i])]
-        k += len(reads[i]) + 1
+        rc = pat[k:k + nreads[i]]
+        wc = pat[k + nreads[i]]
+        k += nreads[i] + 1
         src = [class_reg(isa, c, narrow=narrow_reads) for c in rc]
         kernel.append(iform(i + 1, src=src, dst=[class_reg(isa, wc)], lat=weights[i]))
         instrs.append((set(rc), {wc}))
@@ -83,60 +80,80 @@ def _struct(isa, n, reads, writes, narrow_reads, summary=True):
     ok = (not bad) and got == ref
     if ok and summary:
         ok = _summary_ok(isa, kernel, g, ref)
-    return verdict(ok, nontrivial=len(ref) > 0, sample=lambda: {"pattern": pat, "cycles": [list(m) for m in ref]})
+    return ok, len(ref) > 0, {"pattern": list(pat), "cycles": [list(m) for m in ref]}
 
 
-def _pat_shard(eqs):
-    idx = 0
-    for k, b in enumerate(eqs):
-        if b:
-            idx += 1 << k
-    lo, hi = shard(1 << len(eqs))
-    return lo <= idx < hi
+def _struct(isa, nreads, flat, narrow, summary=True, prefix=4):
+    """flat = symbolic register slots in program order (reads then write per instruction)."""
+    pre = canon(flat[:prefix])
+    if not in_shard_index(pattern_index(pre)):
+        return True
+    pat = canon(flat)
+    nar = True if narrow else False
+    ok, nontrivial, sample = native(_struct_concrete, isa, list(nreads), list(pat), nar, summary)
+    return verdict(ok, nontrivial=nontrivial, sample=sample)
 
 
 def lcd3_x86(r0: int, w0: int, r1: int, w1: int, r2: int, w2: int, narrow: bool) -> bool:
     """
     post: _
     """
-    if not _pat_shard([r0 == w0, r0 == r1, w0 == r1, narrow]):
-        return True
     if skip(locals()):
         return True
-    return _struct("x86", 3, [[r0], [r1], [r2]], [w0, w1, w2], narrow)
+    return _struct("x86", [1, 1, 1], [r0, w0, r1, w1, r2, w2], narrow)
 
 
 def lcd3_a64(r0: int, w0: int, r1: int, w1: int, r2: int, w2: int, narrow: bool) -> bool:
     """
     post: _
     """
-    if not _pat_shard([r0 == w0, r0 == r1, w0 == r1, narrow]):
-        return True
     if skip(locals()):
         return True
-    return _struct("aarch64", 3, [[r0], [r1], [r2]], [w0, w1, w2], narrow)
+    return _struct("aarch64", [1, 1, 1], [r0, w0, r1, w1, r2, w2], narrow)
 
 
 def lcd2_two_reads(a0: int, b0: int, w0: int, a1: int, b1: int, w1: int) -> bool:
     """
     post: _
     """
-    if not _pat_shard([a0 == b0, a0 == w0, b0 == w0, a0 == a1]):
-        return True
     if skip(locals()):
         return True
-    return _struct("x86", 2, [[a0, b0], [a1, b1]], [w0, w1], False)
+    return _struct("x86", [2, 2], [a0, b0, w0, a1, b1, w1], False)
 
 
 def lcd4_x86(r0: int, w0: int, r1: int, w1: int, r2: int, w2: int, r3: int, w3: int) -> bool:
     """
     post: _
     """
-    if not _pat_shard([r0 == w0, r0 == r1, w0 == r1, r0 == w1, w0 == w1, r1 == w1]):
-        return True
     if skip(locals()):
         return True
-    return _struct("x86", 4, [[r0], [r1], [r2], [r3]], [w0, w1, w2, w3], False, summary=False)
+    return _struct("x86", [1, 1, 1, 1], [r0, w0, r1, w1, r2, w2, r3, w3], False, prefix=5)
+
+
+def lcd5_x86(r0: int, w0: int, r1: int, w1: int, r2: int, w2: int, r3: int, w3: int, r4: int, w4: int) -> bool:
+    """
+    post: _
+    """
+    if skip(locals()):
+        return True
+    return _struct("x86", [1, 1, 1, 1, 1], [r0, w0, r1, w1, r2, w2, r3, w3, r4, w4], False, summary=False, prefix=6)
+
+
+def lcd3_traced(r0: int, w0: int, r1: int, w1: int, r2: int, w2: int) -> bool:
+    """
+    post: _
+    """
+    # same as lcd3_x86 but the real code runs under the tracer (no native segment): validates
+    # that the native shortcut does not change verdicts
+    if skip(locals()):
+        return True
+    flat = [r0, w0, r1, w1, r2, w2]
+    pre = canon(flat[:4])
+    if not in_shard_index(pattern_index(pre)):
+        return True
+    pat = canon(flat)
+    ok, nontrivial, sample = _struct_concrete("x86", [1, 1, 1], list(pat), False, False)
+    return verdict(ok, nontrivial=nontrivial, sample=sample)
 
 
 # ---- (ii) numbers symbolic on fixed shapes ----------------------------------------------
@@ -247,11 +264,13 @@ def lcd_flags(fw0: bool, fr0: bool, fw1: bool, fr1: bool, fw2: bool, fr2: bool, 
 
 
 CELLS = {
-    "lcd3_x86": {"fn": lcd3_x86, "bound": "n=3, one read + one write per instruction, all register coincidence patterns (Bell(6)=203) x {reads via 64-bit, 32-bit alias}",
-                 "budget": {"quick": 170, "thorough": 600}, "shards": 16},
-    "lcd3_a64": {"fn": lcd3_a64, "tiers": ("thorough",), "bound": "as lcd3_x86 on AArch64 (x/w aliases)", "budget": {"thorough": 600}, "shards": 16},
-    "lcd2_two_reads": {"fn": lcd2_two_reads, "tiers": ("thorough",), "bound": "n=2, two reads + one write per instruction, all patterns", "budget": {"thorough": 600}, "shards": 16},
-    "lcd4_x86": {"fn": lcd4_x86, "tiers": ("thorough",), "bound": "n=4, one read + one write per instruction, all Bell(8)=4140 patterns", "budget": {"thorough": 1500}, "shards": 64},
+    "lcd3_x86": {"fn": lcd3_x86, "bound": "n=3, one read + one write per instruction, all register coincidence patterns (Bell(6)=203) x {reads via 64-bit, 32-bit alias}; real code native per pattern",
+                 "budget": {"quick": 170, "thorough": 600}, "shards": 5},
+    "lcd4_x86": {"fn": lcd4_x86, "bound": "n=4, one read + one write per instruction, all Bell(8)=4140 patterns; real code native per pattern", "budget": {"quick": 170, "thorough": 900}, "shards": 13},
+    "lcd5_x86": {"fn": lcd5_x86, "tiers": ("thorough",), "bound": "n=5, one read + one write per instruction, all Bell(10)=115975 patterns; real code native per pattern", "budget": {"thorough": 3000}, "shards": 203},
+    "lcd3_traced": {"fn": lcd3_traced, "tiers": ("thorough",), "bound": "n=3 as lcd3_x86 but the real code runs under the tracer", "budget": {"thorough": 900}, "shards": 15},
+    "lcd3_a64": {"fn": lcd3_a64, "tiers": ("thorough",), "bound": "as lcd3_x86 on AArch64 (x/w aliases)", "budget": {"thorough": 600}, "shards": 5},
+    "lcd2_two_reads": {"fn": lcd2_two_reads, "tiers": ("thorough",), "bound": "n=2, two reads + one write per instruction, all patterns", "budget": {"thorough": 600}, "shards": 5},
     "lcd_numbers_float2": {"fn": lcd_numbers_float2, "tiers": ("quick",), "bound": "8 fixed cycle shapes, latencies of instructions 0 and 1 real-valued symbolic in [0,100], third = 3.0",
                            "budget": {"quick": 170}, "shards": 8},
     "lcd_numbers_int": {"fn": lcd_numbers_int, "tiers": ("thorough",), "bound": "8 fixed cycle shapes (self loop, rings, shared nodes, several cycles through one instruction, no cycle), all int latencies 0..100",
